@@ -286,8 +286,13 @@ var c06Producers = []c06Producer{
 	{"format %s] of %d on bytes", false, func(L int) string {
 		return fmt.Sprintf("out := format(\"%%s%%d\", %q, bytes(\"ab\"))", rep("a", L-7))
 	}},
-	{"format bad verb )", false, func(L int) string { return fmt.Sprintf("out := format(\"%%s%%z\", %q, 7)", rep("a", L-8)) }},
-	{"format EXTRA )", false, func(L int) string { return fmt.Sprintf("out := format(\"%%s\", %q, 7)", rep("a", L-15)) }},
+	{"format bad verb )", false, func(L int) string { return fmt.Sprintf("out := format(\"%%s%%z\", %q, 7)", rep("a", L-10)) }}, // "%!z(int=7)" is 10 bytes
+	{"format EXTRA )", false, func(L int) string { // "%!(EXTRA int=7)" is 15 bytes
+		if L < 15 {
+			return fmt.Sprintf("out := format(\"%%s\", %q)", rep("a", L))
+		}
+		return fmt.Sprintf("out := format(\"%%s\", %q, 7)", rep("a", L-15))
+	}},
 	{"format %q", false, func(L int) string { return fmt.Sprintf("out := format(\"%%q\", %q)", rep("a", L-2)) }},
 	{"format %x string", false, func(L int) string {
 		return fmt.Sprintf("out := format(\"%%x\", %q)", rep("a", L/2)) + fmt.Sprintf(" + %q", rep("z", L%2))
